@@ -1,5 +1,7 @@
 import DrummerVerif.Gen.GenPred
-import DrummerVerif.Lemmas.C05
+import DrummerVerif.Gen.GenOrder
+import DrummerVerif.Gen.GenFields
+import DrummerVerif.Model.Sched2
 /-! Bridge lemmas: each regenerated predicate equals the hand-written model definition the theorems use.
     A fixed tactic portfolio is tried; nothing here is specific to the current shape of the Go code. -/
 namespace Drummer
@@ -9,7 +11,8 @@ macro "bridge" : tactic => `(tactic| first
   | (simp only [Gen.usub64, Gen.nodeHostTTL, Gen.entityFailed, Gen.replica_failed, Gen.replica_waiting, Gen.shard_quorum,
         Gen.shard_okReplicas, Gen.shard_toStart, Gen.shard_failedReplicas, Gen.shard_available, Gen.repair_quorum,
         Gen.repair_available, Gen.repair_addRequired, Gen.repair_createRequired, Gen.repair_deleteRequired,
-        Gen.repair_needToBeRestored,
+        Gen.repair_needToBeRestored, Gen.host_available, Gen.liveFilter_filter, Gen.regionFilter_filter, Gen.deadline_missed,
+        Gen.kv_holder_ok, Gen.kill_version_guard, Gen.is_launch_request, HostSpec.available, liveFilter, isLaunchReq,
         usub64, nodeHostTTL, entityFailed, Replica.failed, Replica.waiting, Shard.quorum, Shard.okReplicas, Shard.toStart,
         Shard.failedReplicas, Shard.available, ShardRepair.quorum, ShardRepair.available, ShardRepair.addRequired,
         ShardRepair.createRequired, ShardRepair.deleteRequired, ShardRepair.needToBeRestored] <;> first | rfl | grind)
@@ -30,5 +33,26 @@ theorem bridge_createRequired (cr : ShardRepair) : Gen.repair_createRequired cr 
 theorem bridge_deleteRequired (cr : ShardRepair) (n : Nat) : Gen.repair_deleteRequired cr n = cr.deleteRequired n := by bridge
 theorem bridge_needToBeRestored (cr : ShardRepair) : Gen.repair_needToBeRestored cr = cr.needToBeRestored := by bridge
 
-#print axioms bridge_deleteRequired
+theorem bridge_hostAvailable (h : HostSpec) (t : Nat) : Gen.host_available h t = h.available t := by bridge
+theorem bridge_liveFilter (t gap : Nat) (hs : List HostSpec) : Gen.liveFilter_filter t gap hs = hs.filter (liveFilter t gap) := by bridge
+theorem bridge_regionFilter (r : String) (hs : List HostSpec) : Gen.regionFilter_filter r hs = hs.filter (fun h => r == h.region) := by bridge
+/-- `checkLaunchDeadline`: the tick fail-stops exactly when the model's `applyTick` does (on the state after the time step) -/
+theorem bridge_deadlineMissed (d : DB) :
+    Gen.deadline_missed d = (decide (d.launchDeadline > 0) && decide (d.tick > d.launchDeadline)) := by bridge
+theorem bridge_kvHolder (o n : KVRec) :
+    Gen.kv_holder_ok o n = (o.instanceId == n.instanceId || o.instanceId == n.oldInstanceId) := by bridge
+theorem bridge_killGuard (c : Shard) (ci : ShardInfo) : Gen.kill_version_guard c ci = decide (c.cci ≤ ci.cci) := by bridge
+theorem bridge_isLaunchReq (r : Request) : Gen.is_launch_request r = isLaunchReq r := by bridge
+
+/-! ### program order (lcm/process.go) and field facts (db.go, nodehostapi.go) -/
+theorem startWrite_ok : StartOK Gen.prog_StartWrite = true := by decide
+theorem startRead_ok : StartOK Gen.prog_StartRead = true := by decide
+/-- every serialised field of `DB` is restored by `RecoverFromSnapshot`, and nothing else is -/
+theorem snapshot_fields_agree : Gen.dbSerialised = Gen.dbRestored := by decide
+/-- C09 `failed_persisted` -/
+theorem failed_persisted : "Failed" ∈ Gen.dbRestored ∧ "LaunchDeadline" ∈ Gen.dbRestored := by decide
+/-- C19: the three session conversions copy the same four fields, each onto itself -/
+theorem session_fields :
+    Gen.session_ToNodeHostSession = ["ClientID<-ClientID", "RespondedTo<-RespondedTo", "SeriesID<-SeriesID", "ShardID<-ShardID"] ∧
+    Gen.session_ToPBSession = Gen.session_ToNodeHostSession ∧ Gen.session_updatePBSession = Gen.session_ToNodeHostSession := by decide
 end Drummer
